@@ -419,6 +419,20 @@ ObsWalk == \E src \in Full :
 ObsTreeFormat == \E src \in Full :
               \/ Observe("obs_tree_format", <<src, FALSE>>, WalkStructure(reg[src], 0, "None", NoParent))
               \/ Observe("obs_tree_format", <<src, TRUE>>, WalkTree(reg[src], 0, NoParent))
+(* the text renderings: format, format_flat, diagnostic, hex, tree_format, UR. The specification fixes only
+   what the properties need: they return (C16) and the counts of obscured-element markers agree with the
+   structure *)
+RECURSIVE CountCase(_, _), SumOver(_, _)
+SumOver(S, c) == IF S = {} THEN 0 ELSE LET x == CHOOSE x \in S : TRUE IN CountCase(x, c) + SumOver(S \ {x}, c)
+CountCase(e, c) ==
+  (IF e[1] = c THEN 1 ELSE 0) +
+  CASE e[1] = "node" -> CountCase(e[2], c) + SumOver(e[3], c)
+    [] e[1] = "assn" -> CountCase(e[2], c) + CountCase(e[3], c)
+    [] e[1] = "wrap" -> CountCase(e[2], c)
+    [] OTHER -> 0
+ObsFormat == \E src \in Full :
+              Observe("obs_format", <<src>>, [elided |-> CountCase(reg[src], "elided"), encrypted |-> CountCase(reg[src], "enc"),
+                                             compressed |-> CountCase(reg[src], "comp"), elements |-> Size(reg[src])])
 ObsDigests == \E src \in Full, k \in 0..(MaxSize + 1) :
               /\ k <= Depth(reg[src]) + 2
               /\ Observe("obs_digests", <<src, k>>, <<"set", DigestsUpTo(reg[src], k)>>)
@@ -445,7 +459,7 @@ ObsCompare == \E r1 \in Full, r2 \in Full :
                        [ equivalent |-> Equivalent(reg[r1], reg[r2]),
                          identical  |-> Identical(reg[r1], reg[r2]),
                          img1 |-> StructImage(reg[r1]), img2 |-> StructImage(reg[r2]) ])
-ObserveFam == ObsStructure \/ ObsWalk \/ ObsTreeFormat \/ ObsDigests \/ ObsLookup \/ ObsExtract
+ObserveFam == ObsStructure \/ ObsWalk \/ ObsFormat \/ ObsTreeFormat \/ ObsDigests \/ ObsLookup \/ ObsExtract
 
 Fam(f, A) == Len(hist) < Len(Phases) /\ f \in Phases[Len(hist) + 1] /\ A
 
